@@ -31,16 +31,16 @@ Proof.
   destruct cv; reflexivity.
 Qed.
 
-Lemma bit_present imgA cv imgB :
-  bit (expect_bitmap (present_bits (imgA ++ cv :: imgB))) (length imgA) = Ok (is_present cv).
+Lemma bit_present pad imgA cv imgB :
+  bit (expect_bitmap pad (present_bits (imgA ++ cv :: imgB))) (length imgA) = Ok (is_present cv).
 Proof.
   rewrite bitmap_bit_ok by (rewrite present_bits_length, app_length; cbn [length]; lia).
   rewrite present_bits_app. rewrite app_nth2 by (rewrite present_bits_length; lia).
   rewrite present_bits_length, Nat.sub_diag. reflexivity.
 Qed.
 
-Lemma bit_null imgA cv imgB b : null_bit cv = [b] ->
-  bit (expect_bitmap (null_bits (imgA ++ cv :: imgB))) (length (null_bits imgA)) = Ok b.
+Lemma bit_null pad imgA cv imgB b : null_bit cv = [b] ->
+  bit (expect_bitmap pad (null_bits (imgA ++ cv :: imgB))) (length (null_bits imgA)) = Ok b.
 Proof.
   intros Hb.
   assert (E : null_bits (imgA ++ cv :: imgB) = null_bits imgA ++ b :: null_bits imgB).
@@ -76,6 +76,7 @@ Definition len_fine (ty : coltype) (cv : cellv) : Prop :=
   end.
 
 Section Walk.
+Variables pc pn : Z.     (* padding patterns of the presence bitmap and of the NULL bitmap: arbitrary *)
 Variable tm : table_map.
 Variable tys : list coltype.
 Variable img : list cellv.
@@ -85,7 +86,7 @@ Hypothesis Hmeta : tm_meta tm = map meta_of tys.
 Lemma skip_image_suffix tysB imgB : Forall2 len_fine tysB imgB ->
   forall tysA imgA pre rest,
   tys = tysA ++ tysB -> img = imgA ++ imgB -> length tysA = length imgA ->
-  skip_image (length tysB) tm (expect_bitmap (present_bits img)) (expect_bitmap (null_bits img))
+  skip_image (length tysB) tm (expect_bitmap pc (present_bits img)) (expect_bitmap pn (null_bits img))
              (pre ++ image_cells tysB imgB ++ rest) (length tysA) (length (null_bits imgA)) (length pre)
   = Ok (length pre + length (image_cells tysB imgB))%nat.
 Proof.
@@ -102,11 +103,11 @@ Proof.
       rewrite ES. specialize (IH (tysA ++ [ty]) (imgA ++ [CAbsent]) pre rest Et' Ei' El').
       rewrite null_bits_snoc in IH. cbn [null_bit length] in IH. rewrite Nat.add_0_r in IH. exact IH.
     + (* NULL *)
-      rewrite Ei at 1. rewrite (bit_null imgA CNull imgB true eq_refl). cbn [bind].
+      rewrite Ei at 1. rewrite (bit_null pn imgA CNull imgB true eq_refl). cbn [bind].
       rewrite ES. specialize (IH (tysA ++ [ty]) (imgA ++ [CNull]) pre rest Et' Ei' El').
       rewrite null_bits_snoc in IH. cbn [null_bit length] in IH. rewrite Nat.add_1_r in IH. exact IH.
     + (* value *)
-      rewrite Ei at 1. rewrite (bit_null imgA (CVal v) imgB false eq_refl). cbn [bind].
+      rewrite Ei at 1. rewrite (bit_null pn imgA (CVal v) imgB false eq_refl). cbn [bind].
       rewrite Htypes, Hmeta, Et, !map_app. cbn [map]. rewrite <- El.
       replace (length tysA) with (length (map code_of tysA)) at 1 by apply map_length.
       rewrite at_mid. cbn [bind].
@@ -128,22 +129,22 @@ Qed.
 Hypothesis Hfine : Forall2 len_fine tys img.
 
 Lemma skip_image_ok pre rest :
-  skip_image (length tys) tm (expect_bitmap (present_bits img)) (expect_bitmap (null_bits img))
+  skip_image (length tys) tm (expect_bitmap pc (present_bits img)) (expect_bitmap pn (null_bits img))
              (pre ++ image_cells tys img ++ rest) 0 0 (length pre)
   = Ok (length pre + length (image_cells tys img))%nat.
 Proof. exact (skip_image_suffix tys img Hfine [] [] pre rest eq_refl eq_refl eq_refl). Qed.
 
 (* one image of a rows event: NULL bitmap, then the cells *)
 Lemma read_image_ok pre rest :
-  read_image tm (expect_bitmap (present_bits img)) (length tys) (count_true (present_bits img))
-             (pre ++ enc_image tys img ++ rest) (length pre)
-  = Ok (expect_bitmap (null_bits img), image_cells tys img, (length pre + length (enc_image tys img))%nat).
+  read_image tm (expect_bitmap pc (present_bits img)) (length tys) (count_true (present_bits img))
+             (pre ++ enc_image pn tys img ++ rest) (length pre)
+  = Ok (expect_bitmap pn (null_bits img), image_cells tys img, (length pre + length (enc_image pn tys img))%nat).
 Proof.
   unfold read_image, enc_image. rewrite <- null_bits_count.
   rewrite <- app_assoc. rewrite new_bitmap_ok. cbn [bind].
-  rewrite <- pack_bits_length.
+  rewrite <- (pack_bits_pad_length pn).
   rewrite app_assoc, <- app_length. rewrite skip_image_ok. cbn [bind].
-  set (P := length (pre ++ pack_bits (null_bits img))).
+  set (P := length (pre ++ pack_bits_pad pn (null_bits img))).
   destruct (Nat.ltb_spec (P + length (image_cells tys img)) P) as [L|_]; [lia|].
   replace (P + length (image_cells tys img) - P)%nat with (length (image_cells tys img)) by lia.
   subst P. rewrite slice_app_mid by reflexivity. cbn [bind].
@@ -153,6 +154,7 @@ End Walk.
 
 (* ---------- the column-by-column decoder of the streamer ---------- *)
 Section Decode.
+Variables pc pn : Z.     (* padding patterns of the presence bitmap and of the NULL bitmap: arbitrary *)
 Variable ffmt : Z -> Z -> bytes.
 Variable tz : Z -> Z.
 Variable jsonp : bytes -> res bytes.
@@ -186,7 +188,7 @@ Lemma image_columns_suffix specsB imgB : Forall2 val_fine specsB imgB ->
   forall specsA imgA pre rest acc,
   specs = specsA ++ specsB -> img = imgA ++ imgB -> length specsA = length imgA ->
   image_columns ffmt tz jsonp (length specsB) tm tcols
-                (expect_bitmap (present_bits img)) (expect_bitmap (null_bits img))
+                (expect_bitmap pc (present_bits img)) (expect_bitmap pn (null_bits img))
                 (pre ++ image_cells (map cs_type specsB) imgB ++ rest)
                 (length specsA) (length (null_bits imgA)) (length pre) acc
   = Ok (Some (rev acc ++ expect_columns specsB imgB)).
@@ -221,14 +223,14 @@ Proof.
                      Es' Ei' El').
       rewrite null_bits_snoc in IH. cbn [null_bit length] in IH. rewrite Nat.add_0_r in IH.
       rewrite IH. cbn [rev]. rewrite <- app_assoc. reflexivity.
-    + rewrite Ei at 1. rewrite (bit_null imgA CNull imgB true eq_refl). cbn [bind].
+    + rewrite Ei at 1. rewrite (bit_null pn imgA CNull imgB true eq_refl). cbn [bind].
       rewrite <- El, ES.
       specialize (IH (specsA ++ [s]) (imgA ++ [CNull]) pre rest
                      ({| c_field := cs_name s; c_type := code_of (cs_type s); c_empty := false; c_data := None |} :: acc)
                      Es' Ei' El').
       rewrite null_bits_snoc in IH. cbn [null_bit length] in IH. rewrite Nat.add_1_r in IH.
       rewrite IH. cbn [rev]. rewrite <- app_assoc. reflexivity.
-    + rewrite Ei at 1. rewrite (bit_null imgA (CVal v) imgB false eq_refl). cbn [bind].
+    + rewrite Ei at 1. rewrite (bit_null pn imgA (CVal v) imgB false eq_refl). cbn [bind].
       rewrite <- El. rewrite Hm.
       rewrite <- app_assoc. cbn [val_fine] in Hf.
       destruct (Hf pre (image_cells (map cs_type specsB) imgB ++ rest)) as [Hv _]. rewrite Hv.
@@ -253,13 +255,13 @@ Hypothesis Hfine : Forall2 val_fine specs img.
    gets its expected cell; nothing after the image's last byte influences the result *)
 Theorem image_of_ok ti rest :
   ti_cols ti = tcols ->
-  image_of ffmt tz jsonp tm ti (expect_bitmap (present_bits img)) (expect_bitmap (null_bits img))
+  image_of ffmt tz jsonp tm ti (expect_bitmap pc (present_bits img)) (expect_bitmap pn (null_bits img))
            (Some (image_cells tys img ++ rest))
   = Ok (Some (expect_columns specs img)).
 Proof.
   intros Hti. unfold image_of. rewrite Hti.
   assert (Hl : length specs = length img) by (eapply Forall2_len; exact Hfine).
-  change (bm_count (expect_bitmap (present_bits img))) with (length (present_bits img)).
+  change (bm_count (expect_bitmap pc (present_bits img))) with (length (present_bits img)).
   rewrite present_bits_length. unfold tcols. rewrite map_length, <- Hl, Nat.eqb_refl. cbn [negb].
   exact (image_columns_suffix specs img Hfine [] [] [] rest [] eq_refl eq_refl eq_refl).
 Qed.
